@@ -63,6 +63,15 @@ def bankOp (op : String) (args : List Int) : Option String :=
         | "w.settle" => some (triple (settleEmissions b x now))
         | _ => none
       | _ => some "bad-args"
+  else if op == "bk.handle" then
+    match parseBank args with
+    | none => some "bad-args"
+    | some (b, rest) =>
+      match parseBal rest with
+      | some (x, [avail, now]) =>
+        some (showResB ((settleBankruptcy b x avail now).map fun o =>
+          s!"{showBank o.bank} {showBal o.bal} {o.coveredUp} {if o.kill then 1 else 0}"))
+      | _ => some "bad-args"
   else if op == "fee.collect" then
     match args with
     | [fi, fg, fp, v] =>
